@@ -106,19 +106,21 @@ def explore(ll, opts, wall_budget, max_paths, log):
 # ---------------------------------------------------------------------------------- native replay
 def native_run(exe, inputs, timeout=120, perturb=None):
     import tempfile
-    fd, path = tempfile.mkstemp(prefix='vp_replay_', suffix='.txt', dir=os.path.join(VERIF, '.cache'))
-    os.write(fd, (' '.join(str(x) for x in inputs) + '\n').encode()); os.close(fd)
+    rundir = tempfile.mkdtemp(prefix='vp_run_', dir=os.path.join(VERIF, '.cache'))
+    path = os.path.join(rundir, 'replay.txt')
+    open(path, 'w').write(' '.join(str(x) for x in inputs) + '\n')
     env = dict(os.environ)
     env['ASAN_OPTIONS'] = 'detect_leaks=0:abort_on_error=0:halt_on_error=1:allocator_may_return_null=1'
     env['UBSAN_OPTIONS'] = 'print_stacktrace=1:halt_on_error=1'
     if perturb is not None: env['MALLOC_PERTURB_'] = str(perturb)
     try:
-        r = subprocess.run([exe, path], stdout=subprocess.PIPE, stderr=subprocess.PIPE, timeout=timeout, env=env, cwd=os.path.join(VERIF, '.cache'))
+        r = subprocess.run([exe, path], stdout=subprocess.PIPE, stderr=subprocess.PIPE, timeout=timeout, env=env, cwd=rundir)
         out = r.stdout.decode(errors='replace'); err = r.stderr.decode(errors='replace'); rc = r.returncode
     except subprocess.TimeoutExpired as e:
         out = (e.stdout or b'').decode(errors='replace'); err = 'TIMEOUT'; rc = -999
     finally:
-        os.remove(path)
+        import shutil
+        shutil.rmtree(rundir, ignore_errors=True)
     res = {'rc': rc, 'asserts': [], 'trace': [], 'reach': [], 'done': False, 'sanitizer': None, 'err_tail': err[-1500:]}
     for ln in out.split('\n'):
         if ln.startswith('VP_LOG '):
